@@ -23,6 +23,7 @@ import Driver.Collection
 import Driver.Roots
 import Driver.BLSAgg
 import Driver.Text
+import Driver.ExecEvents
 import Driver.SMTImpl
 import Driver.CodecNFC
 
@@ -54,6 +55,7 @@ def main (args : List String) : IO UInt32 := do
   | ["ROOTS"] => Driver.Roots.main; return 0
   | ["C06BLS"] => Driver.BLSAgg.main; return 0
   | ["C09TEXT"] => Driver.Text.main; return 0
+  | ["C16WIDE"] => Driver.ExecEvents.main; return 0
   | ["C10IMPL"] => Driver.SMTImpl.main; return 0
   | ["C08NFC"] => Driver.CodecNFC.main; return 0
   | ["C17"] => Driver.ReqResp.main; return 0
